@@ -10,6 +10,7 @@ pub mod c02;
 pub mod c03;
 pub mod c04;
 pub mod c05;
+pub mod c11;
 pub mod c14;
 pub mod c16;
 pub mod c18;
@@ -31,6 +32,7 @@ pub fn worker(prop: &str, case: &Value) -> Value {
         "C03" => c03::worker(case),
         "C04" => c04::worker(case),
         "C05" => c05::worker(case),
+        "C11" => c11::worker(case),
         "C14" => c14::worker(case),
         "C16" => c16::worker(case),
         "C18" => c18::worker(case),
@@ -54,6 +56,7 @@ pub fn drive(prop: &str, tier: &str) -> i32 {
         "C03" => c03::drive(tier),
         "C04" => c04::drive(tier),
         "C05" => c05::drive(tier),
+        "C11" => c11::drive(tier),
         "C14" => c14::drive(tier),
         "C16" => c16::drive(tier),
         "C18" => c18::drive(tier),
